@@ -578,7 +578,8 @@ def defects(rnd, rows):
              ("check-undeclared-field-second", ["C", "k", "IsUnique", names[0] + ", no_such_field"]), ("check-empty-rule", ["C", "k", "IsUnique", ""]),
              ("check-duplicate-field", ["C", "k", "IsUnique", names[0] + ", " + names[0]]), ("check-missing-comma", ["C", "k", "IsUnique", names[0] + " " + names[0]]),
              ("check-rule-starts-with-number", ["C", "k", "DistinctCount", "3 < " + names[0]]), ("check-distinct-undeclared-field", ["C", "k", "DistinctCount", "nope < 3"]),
-             ("check-no-type", ["C", "k"]), ("check-type-abstract", ["C", "k", "Abstract", names[0]]), ("check-type-class-name", ["C", "k", "IsUniqueCheck", names[0]]), ("check-rule-leading-blank", ["C", "k", "IsUnique", " " + names[0]])]
+             ("check-no-type", ["C", "k"]), ("check-type-beyond-parsed-columns", ["C", "k", "", "", "", "", "", "IsUnique", names[0]]),
+             ("check-rule-beyond-parsed-columns", ["C", "k", "", "", "", "", "IsUnique", names[0]]), ("check-type-beyond-parsed-columns-2", ["C", "k", "", "", "", "", "", "", "", "IsUnique", names[0]]), ("check-type-abstract", ["C", "k", "Abstract", names[0]]), ("check-type-class-name", ["C", "k", "IsUniqueCheck", names[0]]), ("check-rule-leading-blank", ["C", "k", "IsUnique", " " + names[0]])]
     for name, row in extra:
         yield name, rows + [row], end
     for i in c_idx:
